@@ -461,3 +461,137 @@ def f_affine(tier="quick", seed=0):
                       "extents": {"P": 2, "Q": 3, "R": 2, "S": 2, "H": 3, "W": 4},
                       "tags": {"family": "affine", "template": "conv2d", "follow": False}})
     return specs
+
+
+# ---------------------------------------------------------------- F-cascade
+def f_cascade(tier="quick", seed=0):
+    specs = []
+    T = {"family": "cascade"}
+
+    def add(name, decl, exprs, mapping, ext, sizes=None):
+        specs.append({"name": "cascade/" + name, "decl": decl, "exprs": exprs, "mapping": mapping, "extents": ext,
+                      "sizes": sizes or {}, "tags": dict(T, template=name.split("/")[0])})
+
+    d = {"A": ["K", "M"], "B": ["K", "N"], "T": ["M", "N"], "Z": ["M", "N"]}
+    ex = ["T[m, n] = A[k, m] * B[k, n]", "Z[m, n] = a * T[m, n]"]
+    e3 = {"K": 3, "M": 2, "N": 2}
+    add("gemm-scale/nomap", d, ex, {}, e3)
+    for lo1 in (["M", "N", "K"], ["K", "N", "M"], ["N", "K", "M"]):
+        for lo2 in (["M", "N"], ["N", "M"]):
+            add("gemm-scale/lo=%s;%s" % ("".join(lo1), "".join(lo2)), d, ex, {"loop-order": {"T": lo1, "Z": lo2}}, e3)
+    add("gemm-scale/ro", d, ex, {"rank-order": {"T": ["N", "M"], "A": ["M", "K"]}, "loop-order": {"T": ["N", "M", "K"]}}, e3)
+    add("gemm-scale/part-first", d, ex, {"partitioning": {"T": {"K": ["uniform_shape(2)"], "M": ["uniform_shape(1)"]}},
+                                         "loop-order": {"T": ["M1", "K1", "N", "M0", "K0"]}}, e3)
+    add("gemm-scale/part-both", d, ex, {"partitioning": {"T": {"M": ["uniform_shape(2)"]}, "Z": {"N": ["uniform_shape(1)"], "M": ["nway_shape(2)"]}},
+                                        "loop-order": {"T": ["M1", "K", "N", "M0"], "Z": ["N1", "M1", "M0", "N0"]}},
+        {"K": 2, "M": 3, "N": 2})
+    add("gemm-scale/occ-second", d, ex, {"partitioning": {"Z": {"M": ["uniform_occupancy(T.2)"]}},
+                                         "loop-order": {"Z": ["M1", "N", "M0"]}}, {"K": 2, "M": 3, "N": 2})
+    add("gemm-scale/occ-first", d, ex, {"partitioning": {"T": {"K": ["uniform_occupancy(A.2)"]}},
+                                        "loop-order": {"T": ["K1", "M", "N", "K0"]}}, e3)
+    # sddmm as a cascade
+    d2 = {"A": ["K", "M"], "B": ["K", "N"], "C": ["M", "N"], "T": ["M", "N"], "Z": ["M", "N"]}
+    ex2 = ["T[m, n] = A[k, m] * B[k, n]", "Z[m, n] = T[m, n] * C[m, n]"]
+    add("sddmm/nomap", d2, ex2, {}, e3)
+    add("sddmm/lo", d2, ex2, {"loop-order": {"T": ["K", "M", "N"], "Z": ["N", "M"]}, "rank-order": {"Z": ["N", "M"]}}, e3)
+    add("sddmm/part", d2, ex2, {"partitioning": {"T": {"K": ["uniform_shape(2)"]}, "Z": {"M": ["uniform_shape(2)"]}},
+                                "loop-order": {"T": ["K1", "M", "N", "K0"], "Z": ["M1", "N", "M0"]}}, {"K": 3, "M": 3, "N": 2})
+    # gram: T used twice later, sum with an input
+    d3 = {"A": ["K", "M"], "T": ["M"], "B": ["M"], "Y": ["M"], "Z": []}
+    ex3 = ["T[m] = A[k, m]", "Y[m] = T[m] + B[m]", "Z[] = Y[m] * T[m]"]
+    add("chain3/nomap", d3, ex3, {}, {"K": 2, "M": 3})
+    add("chain3/part", d3, ex3, {"partitioning": {"T": {"M": ["uniform_shape(2)"]}, "Y": {"M": ["uniform_shape(2)"]}, "Z": {"M": ["uniform_shape(2)"]}},
+                                 "loop-order": {"T": ["M1", "K", "M0"], "Y": ["M1", "M0"], "Z": ["M1", "M0"]}}, {"K": 2, "M": 3})
+    for pre in (1, 2):
+        add("chain3/prefix%d" % pre, {k: v for k, v in d3.items() if k in ("A", "T", "B", "Y")[:2 + pre * 1 + (pre - 1)]} if False else d3,
+            ex3[:pre], {}, {"K": 2, "M": 3})
+    # outerspace-style multiply / copy / reduce with per-tensor rank orders
+    d4 = {"A": ["K", "M"], "B": ["K", "N"], "T0": ["K", "M", "N"], "T1": ["K", "M", "N"], "Z": ["M", "N"]}
+    ex4 = ["T0[k, m, n] = A[k, m] * B[k, n]", "T1[k, m, n] = T0[k, m, n]", "Z[m, n] = T1[k, m, n]"]
+    add("outerspace/plain", d4, ex4, {"rank-order": {"T0": ["M", "K", "N"], "T1": ["M", "K", "N"]},
+                                      "loop-order": {"T0": ["K", "M", "N"], "T1": ["M", "K", "N"], "Z": ["M", "N", "K"]}},
+        {"K": 2, "M": 2, "N": 2})
+    add("outerspace/nomap", d4, ex4, {}, {"K": 2, "M": 2, "N": 2})
+    # repeated output name
+    d5 = {"A": ["M"], "B": ["M"], "Z": ["M"], "Y": ["M"]}
+    add("rewrite/Z-twice", d5, ["Z[m] = A[m]", "Y[m] = Z[m] * B[m]", "Z[m] = Y[m] + A[m]"], {}, {"M": 3})
+    # index math in an early Einsum, reuse of the index variables later
+    d6 = {"I": ["W"], "F": ["S"], "T": ["Q"], "J": ["Q"], "Z": ["Q"]}
+    add("conv-then/prod", d6, ["T[q] = I[q + s] * F[s]", "Z[q] = T[q] * J[q]"], {}, {"Q": 3, "S": 2, "W": 4})
+    add("conv-then/part", d6, ["T[q] = I[2*q + s] * F[s]", "Z[q] = T[q] * J[q]"],
+        {"partitioning": {"Z": {"Q": ["uniform_shape(2)"]}}, "loop-order": {"Z": ["Q1", "Q0"]}}, {"Q": 3, "S": 2, "W": 6})
+    d7 = {"I": ["W"], "F": ["S"], "G": ["S"], "T": ["Q"], "Z": ["Q"]}
+    add("conv-conv", {"I": ["W"], "F": ["S"], "G": ["S"], "T": ["V"], "Z": ["Q"]},
+        ["T[v] = I[v + s] * F[s]", "Z[q] = T[q + s] * G[s]"], {}, {"Q": 2, "S": 2, "V": 3, "W": 4})
+    # a partitioned rank named I (rank names ending in the temporary-marker letter)
+    d8 = {"A": ["I", "K"], "B": ["K", "J"], "Z": ["I", "J"], "Y": ["I"]}
+    add("ijk/part", d8, ["Z[i, j] = A[i, k] * B[k, j]", "Y[i] = Z[i, j]"],
+        {"partitioning": {"Z": {"I": ["uniform_shape(2)"], "K": ["uniform_shape(2)"]}},
+         "loop-order": {"Z": ["I1", "K1", "I0", "J", "K0"]}}, {"I": 3, "J": 2, "K": 3})
+    add("ijk/flat-out", {"A": ["M", "N", "O"], "B": ["M", "N", "O"], "Z": ["M", "N", "O"], "Y": ["M", "N"]},
+        ["Z[m, n, o] = A[m, n, o] * B[m, n, o]", "Y[m, n] = Z[m, n, o]"],
+        {"partitioning": {"Z": {"(N, O)": ["flatten()"]}}, "loop-order": {"Z": ["M", "NO"]}}, {"M": 2, "N": 2, "O": 2})
+    return specs
+
+
+# ---------------------------------------------------------------- F-st
+def _st_bases():
+    g = {"A": ["K", "M"], "B": ["K", "N"], "Z": ["M", "N"]}
+    ge = ["Z[m, n] = A[k, m] * B[k, n]"]
+    return [
+        ("gemm", g, ge, {}, ["M", "N", "K"], {"K": 3, "M": 2, "N": 2}),
+        ("gemm-knm", g, ge, {}, ["K", "N", "M"], {"K": 3, "M": 2, "N": 2}),
+        ("gemm-shape", g, ge, {"Z": {"M": ["uniform_shape(2)"]}}, ["M1", "K", "N", "M0"], {"K": 2, "M": 4, "N": 2}),
+        ("gemm-occ", g, ge, {"Z": {"K": ["uniform_occupancy(A.2)"]}}, ["K1", "M", "N", "K0"], {"K": 3, "M": 2, "N": 2}),
+        ("gemm-shape-occ", g, ge, {"Z": {"M": ["uniform_shape(2)"], "K": ["uniform_occupancy(A.2)"]}},
+         ["M1", "K1", "N", "M0", "K0"], {"K": 3, "M": 4, "N": 2}),
+        ("sigma", g, ge, {"Z": {"K": ["uniform_shape(2)"], "(M, K0)": ["flatten()"], "MK0": ["uniform_occupancy(A.2)"]}},
+         ["K1", "MK01", "N", "MK00"], {"K": 4, "M": 2, "N": 2}),
+        ("bcast", {"A": ["M"], "Z": ["M", "N"]}, ["Z[m, n] = A[m]"], {}, ["M", "N"], {"M": 2, "N": 3}),
+        ("bcast-part", {"A": ["M"], "Z": ["M", "N"]}, ["Z[m, n] = A[m]"], {"Z": {"N": ["uniform_shape(2)"]}},
+         ["N1", "M", "N0"], {"M": 2, "N": 3}),
+        ("conv", {"F": ["S"], "I": ["W"], "O": ["Q"]}, ["O[q] = I[q + s] * F[s]"], {}, ["Q", "S"], {"Q": 3, "S": 2, "W": 4}),
+        ("conv-w", {"F": ["S"], "I": ["W"], "O": ["Q"]}, ["O[q] = I[q + s] * F[s]"], {}, ["W", "Q"], {"Q": 3, "S": 2, "W": 4}),
+        ("sum2", {"A": ["K", "M"], "B": ["K", "M"], "Z": ["M"]}, ["Z[m] = A[k, m] + B[k, m]"], {}, ["M", "K"], {"K": 2, "M": 2}),
+        ("dot", {"A": ["K"], "B": ["K"], "Z": []}, ["Z[] = A[k] * B[k]"], {}, ["K"], {"K": 3}),
+    ]
+
+
+def f_st(tier="quick", seed=0):
+    rnd = random.Random(3000 + seed)
+    specs = []
+    for name, decl, exprs, part, lo, ext in _st_bases():
+        out = out_name(exprs[0])
+        n = len(lo)
+        splits = []
+        for mask in range(2 ** n):
+            space = [r for i, r in enumerate(lo) if mask >> i & 1]
+            time = [r for i, r in enumerate(lo) if not mask >> i & 1]
+            splits.append((space, time))
+        if tier == "quick" and len(splits) > 8:
+            keep = [splits[0], splits[-1]]
+            rest = splits[1:-1]
+            rnd.shuffle(rest)
+            splits = keep + rest[:6]
+        for space, time in splits:
+            stylesets = []
+            allpos = {r: "" for r in lo}
+            allcoord = {r: ".coord" for r in lo}
+            stylesets = [allpos, allcoord]
+            k = 2 if tier == "quick" else 6
+            for _ in range(k):
+                stylesets.append({r: rnd.choice(["", ".pos", ".coord"]) for r in lo})
+            for si, st in enumerate(stylesets):
+                for slip in ((False, True) if (tier == "thorough" or si < 2) else (False,)):
+                    sp = {"space": [r + st[r] for r in space], "time": [r + st[r] for r in time]}
+                    if slip:
+                        sp["opt"] = "slip"
+                    m = {"loop-order": {out: lo}, "spacetime": {out: sp}}
+                    if part:
+                        m["partitioning"] = part
+                    specs.append({"name": "st/%s/space=%s/time=%s%s" % (name, ",".join(sp["space"]), ",".join(sp["time"]),
+                                                                       "/slip" if slip else ""),
+                                  "decl": decl, "exprs": exprs, "mapping": m, "extents": ext, "sizes": {},
+                                  "tags": {"family": "st", "template": name, "slip": slip,
+                                           "all_stamped": True, "styles": sorted(set(st.values()))}})
+    return specs
